@@ -320,6 +320,12 @@ def corpus():
     # tolerance must account for the rounding of y - f), and g^2 overflowing f64 (v = inf, step 0, stop)
     L.append('lm 3ddb7cdfd9d7bdbb 3d719799812dea11 3f847ae147ae147b 2 401299999999999a 4037dc28f5c28f5c 6 3fc20c49ba5e353f 3fe30a3d70a3d70a 3fe753f7ced91687 3febef9db22d0e56 3ffad916872b020c 3ffe5e353f7ced91 3fe74fdf3b645a1d 3fa851eb851eb852 bfc3a5e353f7ced9 bfd7a5e353f7ced9 bff93b645a1cac08 bffe83126e978d50 1 400 7 p0 c3ff0000000000000 mul x p1 mul add')
     L.append('adam 3fb2bc419fe72c3b 3fd7278b90d99d13 3fd50b4f1fcea930 3f50624dd2f1a9fc 3 bfbeb851eb851eb8 3fc851eb851eb852 bff851eb851eb852 100 1 2 3 4 5 6 7 8 9 10 11 12 13 14 15 16 17 18 19 20 21 22 23 24 25 26 27 28 29 30 31 32 33 34 35 36 37 38 39 40 41 42 43 44 45 46 47 48 49 50 51 52 53 54 55 56 57 58 59 60 61 62 63 64 65 66 67 68 69 70 71 72 73 74 75 76 77 78 79 80 81 82 83 84 85 86 87 88 89 90 91 92 93 94 95 96 97 98 99 100 12 p0 exp exp c3fe2e147ae147ae1 sin mul cbff8cccccccccccd c400c666666666666 neg sin div mul')
+    # seeded change C10d (rel_change with an absolute floor): plain SGD halving towards the origin must run all 200
+    # steps (2^-200), never "converge"; a 1e-14 start must not stop after the first step
+    L.append(line_sgd(0.125, 0.0, False, [0.75, -1.5], range(1, 201), add(mul(C(2.0), powi(P(0), 2)), mul(C(3.0), powi(P(1), 2)))))
+    L.append(line_sgd(0.125, 0.5, True, [3.0], range(1, 121), mul(C(2.0), powi(P(0), 2))))
+    L.append(line_sgd(1e-3, 0.0, False, [3e-14, -1e-14], range(1, 41), add(powi(P(0), 2), mul(C(2.25), powi(P(1), 2)))))
+    L.append(line_adam(1e-17, 0.9, 0.999, 1e-8, [1e-14], range(1, 31), powi(P(0), 2)))
     # Adam::new rejects beta <= 0
     L.append(line_adam(0.1, 0.0, 0.999, 1e-8, [1.0], [1], sq))
     L.append(line_adam(0.1, 0.9, -0.5, 1e-8, [1.0], [1], sq))
@@ -491,6 +497,51 @@ def exact_landing(rng, count, cover):
     return L
 
 
+def contraction_to_origin(rng, count, cover, Kmax):
+    """Quadratics sum a_j p_j^2 (minimiser exactly 0) with stepsize * a_j such that plain SGD multiplies coordinate j
+    by the constant r_j = 1 - 2 lr a_j in {1/2, 1/4, -1/2, 0.9}: the iterates run down to 1e-60 .. subnormal while the
+    relative change stays |1 - r|; momentum / Nesterov variants; tiny-magnitude starts with minimisers at 0 and at tiny
+    non-zero values (there the relative test legitimately fires after ~53 halvings); Adam with tiny starts and steps."""
+    L = []
+    LA = {0.5: 0.25, 0.25: 0.375, -0.5: 0.75, 0.9: 0.05}     # r -> lr * a
+    for i in range(count):
+        kind = ["origin", "origin", "tiny", "tiny_centre", "adam_tiny", "origin"][i % 6]
+        mode = ["plain", "momentum", "nesterov"][(i // 6) % 3]
+        n = rng.randint(1, 4)
+        lr = rng.choice([0.125, 0.25, 0.0625, 0.2])
+        rs = [rng.choice([0.5, 0.25, -0.5, 0.9, 0.5]) for _ in range(n)]
+        a = [LA[r] / lr for r in rs]
+        mom = 0.0 if mode == "plain" else rng.choice([0.25, 0.5, 0.125])
+        K = Kmax if i % 3 == 0 else rng.choice([60, 120, Kmax])
+        if kind == "origin":
+            x0 = [rng.choice([0.75, -1.5, 3.0, 0.3, -0.011, 1.0, 1e-3]) for _ in range(n)]
+            e = total([mul(C(a[j]), powi(P(j), 2)) if rng.chance(0.5) else mul(mul(P(j), P(j)), C(a[j])) for j in range(n)])
+            L.append(line_sgd(lr, mom, mode == "nesterov", x0, range(1, K + 1), e))
+        elif kind == "tiny":
+            mag = rng.choice([1e-14, 1e-30, 1e-200, 2.0 ** -50, 1e-300])
+            x0 = [mag * rng.choice([1.0, -2.5, 0.3]) for _ in range(n)]
+            e = total([mul(C(a[j]), powi(P(j), 2)) for j in range(n)])
+            L.append(line_sgd(lr, mom, mode == "nesterov", x0, range(1, min(K, 120) + 1), e))
+        elif kind == "tiny_centre":
+            mag = rng.choice([1e-14, 1e-30, 1e-200])
+            c = [mag * rng.choice([0.3, -0.1, 1.0]) for _ in range(n)]
+            x0 = [mag * rng.choice([1.0, -2.5, 3.0]) for _ in range(n)]
+            rs2 = [r if r != 0.9 else 0.5 for r in rs]          # converge inside the budget: legit relative stop
+            a2 = [LA[r] / lr for r in rs2]
+            L.append(line_sgd(lr, mom, mode == "nesterov", x0, range(1, min(K, 120) + 1), sepquad(a2, c)))
+        else:
+            # Adam moves by about its stepsize per step: tiny start, stepsize a fraction of it (far below 2.2e-16)
+            mag = rng.choice([1e-14, 1e-30, 1e-100])
+            x0 = [mag * rng.choice([1.0, -2.5, 0.3]) for _ in range(n)]
+            c = [0.0 if rng.chance(0.5) else mag * rng.choice([0.3, -0.1]) for _ in range(n)]
+            b1, b2 = rng.choice([(0.9, 0.999), (0.5, 0.5), (0.75, 0.9)])
+            L.append(line_adam(mag * rng.choice([1e-3, 0.1, 0.01]), b1, b2, rng.choice([1e-8, 2.0 ** -70, 1e-10]), x0,
+                               range(1, min(K, 60) + 1), sepquad([rng.choice([0.5, 1.0, 2.0]) for _ in range(n)], c)))
+            mode = "adam"
+        cover["contraction:%s:%s" % (kind, mode)] = cover.get("contraction:%s:%s" % (kind, mode), 0) + 1
+    return L
+
+
 def gen(rng, tier):
     lines = []
     cover = {}
@@ -540,6 +591,10 @@ def gen(rng, tier):
     # exact-landing stratum: dyadic data such that an iterate lands bit-exactly on a stationary coordinate while the
     # moments / the velocity are non-zero (gradient component exactly 0.0 on a step that must still move)
     for l in exact_landing(rng, 40 if not thorough else 400, cover):
+        lines.append(l)
+    # geometric contraction to the origin / tiny magnitudes: the RELATIVE stop test must not fire although the absolute
+    # changes run far below 1e-16
+    for l in contraction_to_origin(rng, 36 if not thorough else 300, cover, 200 if not thorough else 400):
         lines.append(l)
     # Levenberg-Marquardt
     for i in range(60 if not thorough else 450):
